@@ -471,8 +471,8 @@ move=> al; case: (ltnP i (size l)) => [lt|ge]; first exact: all_nth.
 by rewrite List_nthE nth_default // /in01 c0E lexx ler01.
 Qed.
 
-Lemma one_nat : (Pos.to_nat 1)%:R = 1 :> R.
-Proof. by rewrite Pos2Nat.inj_1. Qed.
+Lemma one_nat : PtoR R 1 = 1.
+Proof. by []. Qed.
 
 Lemma succ01 (cp p : R) : 0 <= cp <= 1 -> in01 p -> in01 ((1 - cp) * p + cp).
 Proof. by move=> c h; have := convex01 c h (_ : 0 <= 1 <= 1); rewrite mulr1 lexx ler01; apply. Qed.
